@@ -393,4 +393,514 @@ Proof.
   wstep. wstep. eapply addHopping8_wgs; eassumption.
 Qed.
 
+Local Notation xspec_coulombP := (PresetsSpec.xspec_coulombP K k0 k1 kadd kmul ksub kopp khalf L idx).
+Local Notation spec_coulombP := (PresetsSpec.spec_coulombP K k0 k1 kadd kmul ksub kopp khalf M L idx).
+Local Notation xspec_coulombP3 := (PresetsSpec.xspec_coulombP3 K k0 k1 kadd kmul ksub kopp khalf L idx).
+Local Notation spec_coulombP3 := (PresetsSpec.spec_coulombP3 K k0 k1 kadd kmul ksub kopp khalf M L idx).
+Local Notation m_quartic := (PresetsSpec.m_quartic K k0 k1 kadd kmul kopp M).
+
+Lemma negb_eqb_neq : forall i j, negb (i =? j) = true -> i <> j.
+Proof. intros i j H E. subst j. rewrite Nat.eqb_refl in H. discriminate. Qed.
+
+(** ** nests of sums: sum_a sum_b sum_{c | q} sum_{d | p} *)
+Lemma sum3_add : forall (la lb lc : list nat) (q : nat -> nat -> nat -> bool) (f g : nat -> nat -> nat -> mat),
+  meq (m_sum la (fun a => m_sum lb (fun b => m_sum_if lc (q a b) (fun c => m_add (f a b c) (g a b c)))))
+      (m_add (m_sum la (fun a => m_sum lb (fun b => m_sum_if lc (q a b) (fun c => f a b c))))
+             (m_sum la (fun a => m_sum lb (fun b => m_sum_if lc (q a b) (fun c => g a b c))))).
+Proof.
+  intros. eapply meq_trans; [|apply m_sum2_add]. apply meq_sum. intros a _. apply meq_sum. intros b _.
+  eapply m_sum_if_add. exact Hring.
+Qed.
+
+Lemma scale_into2 : forall c (la lb : list nat) (f : nat -> nat -> mat),
+  meq (m_scale c (m_sum la (fun a => m_sum lb (fun b => f a b))))
+      (m_sum la (fun a => m_sum lb (fun b => m_scale c (f a b)))).
+Proof.
+  intros. apply meq_sym. eapply meq_trans; [|eapply m_sum_scale; exact Hring].
+  apply meq_sum. intros a _. eapply m_sum_scale. exact Hring.
+Qed.
+Lemma scale_into3 : forall c (la lb lc : list nat) (q : nat -> nat -> nat -> bool) (f : nat -> nat -> nat -> mat),
+  meq (m_scale c (m_sum la (fun a => m_sum lb (fun b => m_sum_if lc (q a b) (fun x => f a b x)))))
+      (m_sum la (fun a => m_sum lb (fun b => m_sum_if lc (q a b) (fun x => m_scale c (f a b x))))).
+Proof.
+  intros. eapply meq_trans; [apply scale_into2|]. apply meq_sum. intros a _. apply meq_sum. intros b _.
+  apply meq_sym. eapply m_sum_if_scale. exact Hring.
+Qed.
+Lemma scale_into4 : forall c (la lb lc ld : list nat) (q : nat -> nat -> nat -> bool) (p : nat -> nat -> bool)
+  (f : nat -> nat -> nat -> nat -> mat),
+  meq (m_scale c (m_sum la (fun a => m_sum lb (fun b => m_sum_if lc (q a b) (fun x =>
+          m_sum_if ld (p a) (fun y => f a b x y))))))
+      (m_sum la (fun a => m_sum lb (fun b => m_sum_if lc (q a b) (fun x =>
+          m_sum_if ld (p a) (fun y => m_scale c (f a b x y)))))).
+Proof.
+  intros. eapply meq_trans; [apply scale_into3|]. apply meq_sum. intros a _. apply meq_sum. intros b _.
+  apply meq_sum_if. intros x _ _. apply meq_sym. eapply m_sum_if_scale. exact Hring.
+Qed.
+
+(** sum_a sum_{a' | p a a'} sum_z sum_{z' | q z z'} F = sum_a sum_z sum_{z' | q} sum_{a' | p} F *)
+Lemma nest4_reorder : forall (la lz : list nat) (p q : nat -> nat -> bool) (f : nat -> nat -> nat -> nat -> mat),
+  meq (m_sum la (fun a => m_sum_if la (p a) (fun a' => m_sum lz (fun z => m_sum_if lz (q z) (fun z' => f a a' z z')))))
+      (m_sum la (fun a => m_sum lz (fun z => m_sum_if lz (q z) (fun z' => m_sum_if la (p a) (fun a' => f a a' z z'))))).
+Proof.
+  intros. apply meq_sum. intros a _.
+  eapply meq_trans; [eapply m_sum_if_swap_plain; exact Hring|]. apply meq_sum. intros z _.
+  eapply m_sum_if_swap. exact Hring.
+Qed.
+
+Section CoulombP.
+Variables (l : L) (norb nspin : nat) (U Up J eps : K).
+Let c := kmul (ksub Up J) khalf.
+Let nn (i z j z' : nat) : mat := m_nn (idx l i z) (idx l j z').
+Let Q1 (i j z z' : nat) : mat := x_quartic (idx l i z) (idx l j z') (idx l j z) (idx l i z').
+Let Q2 (i j z z' : nat) : mat := x_quartic (idx l i z) (idx l i z') (idx l j z) (idx l j z').
+Let ne (i j : nat) : bool := negb (i =? j).
+Let lt (z z' : nat) : bool := z' <? z.
+Let R := rng norb.
+Let Z := rng nspin.
+
+Let PE := spec_level l norb nspin eps.
+Let PC := m_sum R (fun i => m_sum Z (fun z => m_sum_if R (ne i) (fun j => m_scale c (nn i z j z)))).
+Let PA := m_sum R (fun i => m_sum Z (fun z => m_sum_if Z (lt z) (fun z' => m_scale U (nn i z i z')))).
+Let PB := m_sum R (fun i => m_sum Z (fun z => m_sum_if Z (lt z) (fun z' =>
+            m_sum_if R (ne i) (fun j => m_scale Up (nn i z j z'))))).
+Let PD := m_sum R (fun i => m_sum Z (fun z => m_sum_if Z (lt z) (fun z' =>
+            m_sum_if R (ne i) (fun j => m_add (m_scale (kopp J) (Q1 i j z z')) (m_scale (kopp J) (Q2 i j z z')))))).
+
+(** the loops of addCoulombP, tidied: zero tests removed, the z2 < z1 loop written as a restricted sum *)
+Let N := m_sum R (fun i => m_sum Z (fun z =>
+           m_add (m_scale eps (m_n (idx l i z)))
+          (m_add (m_sum_if R (ne i) (fun j => m_scale c (nn i z j z)))
+                 (m_sum_if Z (lt z) (fun z' =>
+                    m_add (m_scale U (nn i z i z'))
+                          (m_sum_if R (ne i) (fun j =>
+                             m_add (m_scale Up (nn i z j z'))
+                                   (m_add (m_scale (kopp J) (Q1 i j z z')) (m_scale (kopp J) (Q2 i j z z')))))))))).
+
+Lemma coulombP_N_pieces : meq N (m_add PE (m_add PC (m_add PA (m_add PB PD)))).
+Proof.
+  unfold N. eapply meq_trans; [apply m_sum2_add|]. apply meq_add; [apply meq_refl|].
+  eapply meq_trans; [apply m_sum2_add|]. apply meq_add; [apply meq_refl|].
+  eapply meq_trans; [apply sum3_add|]. apply meq_add; [apply meq_refl|].
+  eapply meq_trans.
+  { apply meq_sum. intros i _. apply meq_sum. intros z _. apply meq_sum_if. intros z' _ _.
+    eapply m_sum_if_add. exact Hring. }
+  eapply meq_trans; [apply sum3_add|]. apply meq_refl.
+Qed.
+
+Lemma when_nz_J : forall A B,
+  meq (if vnz vo J then m_add (m_scale (vneg vo J) A) (m_scale (vneg vo J) B) else m_zero)
+      (m_add (m_scale (kopp J) A) (m_scale (kopp J) B)).
+Proof.
+  intros A B s u _ _. cbn [vnz vneg kvops]. destruct (kzero J) eqn:E; cbn [negb]; [|reflexivity].
+  apply (proj2 Hring) in E. subst J. unfold PresetsSpec.m_zero, PresetsSpec.m_add, PresetsSpec.m_scale. ring.
+Qed.
+
+Lemma coulombP_x_pieces : meq (xspec_coulombP l norb nspin U Up J eps) (m_add PE (m_add PC (m_add PA (m_add PB PD)))).
+Proof.
+  assert (HA : meq (m_scale U (m_sum R (fun a => m_sum Z (fun z => m_sum_if Z (lt z) (fun z' => nn a z a z'))))) PA).
+  { apply scale_into3. }
+  assert (HB : meq (m_scale Up (m_sum R (fun a => m_sum_if R (ne a) (fun a' =>
+                      m_sum Z (fun z => m_sum_if Z (lt z) (fun z' => nn a z a' z')))))) PB).
+  { eapply meq_trans; [apply meq_scale; apply nest4_reorder|]. apply scale_into4. }
+  assert (HC : meq (m_scale c (m_sum R (fun a => m_sum_if R (ne a) (fun a' => m_sum Z (fun z => nn a z a' z))))) PC).
+  { eapply meq_trans.
+    { apply meq_scale. apply meq_sum. intros a _. eapply m_sum_if_swap_plain. exact Hring. }
+    eapply meq_trans; [apply scale_into2|]. apply meq_sum. intros a _. apply meq_sum. intros z _.
+    apply meq_sym. eapply m_sum_if_scale. exact Hring. }
+  assert (HD : meq (m_scale (kopp J) (m_sum R (fun a => m_sum_if R (ne a) (fun a' =>
+                      m_sum Z (fun z => m_sum_if Z (lt z) (fun z' => m_add (Q1 a a' z z') (Q2 a' a z z'))))))) PD).
+  { eapply meq_trans.
+    { apply meq_scale.
+      (* split, relabel the pair-hopping sum (a <-> a'), recombine *)
+      eapply meq_trans.
+      { apply meq_sum. intros a _. apply meq_sum_if. intros a' _ _.
+        eapply meq_trans; [apply meq_sum; intros z _; eapply m_sum_if_add; exact Hring|].
+        eapply m_sum_add. exact Hring. }
+      eapply meq_trans.
+      { apply meq_sum. intros a _. eapply m_sum_if_add. exact Hring. }
+      eapply meq_trans; [eapply m_sum_add; exact Hring|].
+      eapply meq_trans.
+      { apply meq_add; [apply meq_refl|].
+        apply meq_sym.
+        eapply (m_sum_if_sym K k0 k1 kadd kmul ksub kopp kzero Hring M R ne
+                  (fun a a' => m_sum Z (fun z => m_sum_if Z (lt z) (fun z' => Q2 a a' z z')))).
+        intros a b. unfold ne. rewrite Nat.eqb_sym. reflexivity. }
+      eapply meq_trans; [apply meq_sym; eapply m_sum_add; exact Hring|].
+      eapply meq_trans.
+      { apply meq_sum. intros a _. apply meq_sym. eapply m_sum_if_add. exact Hring. }
+      eapply meq_trans.
+      { apply meq_sum. intros a _. apply meq_sum_if. intros a' _ _.
+        eapply meq_trans; [apply meq_sym; eapply m_sum_add; exact Hring|].
+        apply meq_sum. intros z _. apply meq_sym. eapply m_sum_if_add. exact Hring. }
+      apply nest4_reorder. }
+    eapply meq_trans; [apply scale_into4|].
+    apply meq_sum. intros i _. apply meq_sum. intros z _. apply meq_sum_if. intros z' _ _.
+    apply meq_sum_if. intros j _ _. eapply m_scale_add. exact Hring. }
+  cbv beta zeta delta [PresetsSpec.xspec_coulombP].
+  eapply meq_trans.
+  { apply meq_add; [apply meq_add; [apply meq_add; [apply meq_add; [exact HA|exact HB]|exact HC]|exact HD]|apply meq_refl]. }
+  intros s u _ _. unfold PresetsSpec.m_add. fold PE. ring.
+Qed.
+
+Lemma addCoulombP_wgs : forall m,
+  find_site l m = Some (norb, nspin) -> 2 <= norb -> 2 <= nspin -> site_ok l norb nspin ->
+  wgs (Lattice.addCoulombP L leqb K vo m l U Up J eps) (xspec_coulombP l norb nspin U Up J eps).
+Proof.
+  intros m F Hn Hp S. unfold Lattice.addCoulombP. rewrite F.
+  replace (norb <=? 1) with false by (symmetry; apply Nat.leb_gt; lia).
+  replace (nspin <=? 1) with false by (symmetry; apply Nat.leb_gt; lia). cbn [orb].
+  eapply wgs_meq.
+  - wstep. wstep. wstep; [wstep; eapply leaf_level; [exact Hring|]; apply S; assumption|].
+    wstep.
+    + wstep. wstep. eapply leaf_nn6; [exact Hring| |]; apply S; assumption.
+    + wstep. wstep.
+      * wstep. eapply leaf_nn6; [exact Hring| |]; apply S; lia.
+      * wstep. wstep. wstep.
+        -- wstep. eapply leaf_nn6; [exact Hring| |]; apply S; lia.
+        -- wstep. wstep.
+           ++ eapply leaf_spinflip; [exact Hring|apply negb_eqb_neq; assumption|lia| | | |]; apply S; lia.
+           ++ eapply leaf_pairhopping; [exact Hring|apply negb_eqb_neq; assumption|lia| | | |]; apply S; lia.
+  - eapply meq_trans; [|apply meq_sym, coulombP_x_pieces].
+    eapply meq_trans; [|apply coulombP_N_pieces].
+    unfold N. apply meq_sum. intros i _. apply meq_sum. intros z Hz. apply in_rng in Hz.
+    apply meq_add; [apply when_nz|]. apply meq_add; [apply meq_refl|].
+    eapply meq_trans; [|eapply m_sum_lt; [exact Hring|apply Nat.lt_le_incl; exact Hz]].
+    apply meq_sum. intros z' _. apply meq_add; [apply when_nz|].
+    apply meq_sum. intros j _. unfold ne.
+    destruct (negb (i =? j)); [|apply meq_refl].
+    apply meq_add; [apply when_nz|]. apply when_nz_J.
+Qed.
+
+End CoulombP.
+
+Lemma quartic_product : forall a b c d, meq (m_quartic a b c d) (x_quartic a b c d).
+Proof.
+  intros a b c d s u Hs _. unfold PresetsSpec.m_quartic, PresetsSpec.x_quartic.
+  change [m_cdag a; m_cdag b; m_c c; m_c d] with (map (PresetsSpec.m_op K k0 k1 kopp) [cdag a; cdag b; cann c; cann d]).
+  eapply m_prod_mono; [exact Hring|exact Hs].
+Qed.
+
+Theorem xspec_coulombP_ok : forall l norb nspin U Up J eps,
+  meq (spec_coulombP l norb nspin U Up J eps) (xspec_coulombP l norb nspin U Up J eps).
+Proof.
+  intros. cbv beta zeta delta [PresetsSpec.spec_coulombP PresetsSpec.xspec_coulombP].
+  apply meq_add; [|apply meq_refl]. apply meq_add; [apply meq_refl|]. apply meq_scale.
+  apply meq_sum. intros a _. apply meq_sum_if. intros a' _ _. apply meq_sum. intros z _.
+  apply meq_sum_if. intros z' _ _. apply meq_add; apply quartic_product.
+Qed.
+
+(** * addCoulombP (Kanamori), any number >= 2 of orbitals and of spins *)
+Theorem addCoulombP_denotes : forall m l norb nspin U Up J eps,
+  find_site l m = Some (norb, nspin) -> 2 <= norb -> 2 <= nspin -> site_ok l norb nspin ->
+  denotes m (Lattice.addCoulombP L leqb K vo m l U Up J eps) (spec_coulombP l norb nspin U Up J eps).
+Proof.
+  intros. apply denotes_of_wgs. eapply wgs_meq; [eapply addCoulombP_wgs; eassumption|].
+  apply meq_sym, xspec_coulombP_ok.
+Qed.
+
+(** the shortcut with U' = U - 2J *)
+Theorem addCoulombP3_denotes : forall m l norb nspin U J eps,
+  find_site l m = Some (norb, nspin) -> 2 <= norb -> 2 <= nspin -> site_ok l norb nspin ->
+  denotes m (Lattice.addCoulombP3 L leqb K vo m l U J eps) (spec_coulombP3 l norb nspin U J eps).
+Proof.
+  intros. unfold Lattice.addCoulombP3, PresetsSpec.spec_coulombP3. cbn [vsub vdbl kvops].
+  apply addCoulombP_denotes; assumption.
+Qed.
+
+(** the repaired code of proposed/fix-magnetization-factor.diff pushes Level(mH/2) and Level(-(mH/2)):
+    that is this model called with the halved parameter, and it denotes the documented operator *)
+Theorem addMagnetization_halved_denotes : forall m l norb mH,
+  find_site l m = Some (norb, 2) -> site_ok l norb 2 ->
+  denotes m (Lattice.addMagnetization L leqb K vo m l (vhalf vo mH)) (spec_magnetization l norb mH).
+Proof.
+  intros m l norb mH F S.
+  pose proof (addMagnetization_denotes_twice_documented m l norb (vhalf vo mH) F S) as H.
+  cbn [vhalf kvops] in *.
+  replace (kadd (kmul mH khalf) (kmul mH khalf)) with mH in H; [exact H|].
+  transitivity (kmul mH (kadd khalf khalf)); [rewrite Hhalf|]; ring.
+Qed.
+
+(** * Hermiticity *)
+Hypothesis conj0 : kconj k0 = k0.
+Hypothesis conj1 : kconj k1 = k1.
+Hypothesis conj_add : forall a b, kconj (kadd a b) = kadd (kconj a) (kconj b).
+Hypothesis conj_mul : forall a b, kconj (kmul a b) = kmul (kconj a) (kconj b).
+Hypothesis conj_opp : forall a, kconj (kopp a) = kopp (kconj a).
+Hypothesis conj_invol : forall a, kconj (kconj a) = a.
+Local Notation m_adj := (PresetsSpec.m_adj K kconj).
+Local Notation m_hermitian := (PresetsSpec.m_hermitian K kconj M).
+
+Lemma conj_half : kconj khalf = khalf.
+Proof.
+  assert (H : kadd (kconj khalf) (kconj khalf) = k1) by (rewrite <- conj_add, Hhalf; exact conj1).
+  transitivity (kmul (kconj khalf) (kadd khalf khalf)); [rewrite Hhalf; ring|].
+  transitivity (kmul khalf (kadd (kconj khalf) (kconj khalf))); [ring|]. rewrite H. ring.
+Qed.
+
+Lemma conj_sub' : forall a b, kconj (ksub a b) = ksub (kconj a) (kconj b).
+Proof. intros a b. replace (ksub a b) with (kadd a (kopp b)) by ring. rewrite conj_add, conj_opp. ring. Qed.
+
+Lemma h_add : forall A B, m_hermitian A -> m_hermitian B -> m_hermitian (m_add A B).
+Proof. intros. eapply herm_add; eassumption. Qed.
+Lemma h_scale : forall c A, kconj c = c -> m_hermitian A -> m_hermitian (m_scale c A).
+Proof. intros. eapply herm_scale; eassumption. Qed.
+Lemma h_sum : forall (X : Type) (l : list X) (f : X -> mat), (forall x, In x l -> m_hermitian (f x)) -> m_hermitian (m_sum l f).
+Proof. intros. eapply herm_sum; eassumption. Qed.
+Lemma h_sum_if : forall (X : Type) (l : list X) (p : X -> bool) (f : X -> mat),
+  (forall x, In x l -> p x = true -> m_hermitian (f x)) -> m_hermitian (m_sum_if l p f).
+Proof. intros. eapply herm_sum_if; eassumption. Qed.
+Lemma h_n : forall i, m_hermitian (m_n i).
+Proof. intros i. unfold PresetsSpec.m_n. eapply herm_diag; [exact conj0|]. intros s. apply conj_occ; assumption. Qed.
+Lemma h_nn : forall i j, m_hermitian (m_nn i j).
+Proof.
+  intros i j. unfold PresetsSpec.m_nn. eapply herm_diag; [exact conj0|]. intros s.
+  rewrite conj_mul. rewrite !(conj_occ K k0 k1 kconj conj0 conj1). reflexivity.
+Qed.
+Lemma h_meq : forall A B, meq A B -> m_hermitian A -> m_hermitian B.
+Proof. intros. eapply herm_meq; eassumption. Qed.
+
+Lemma h_level : forall l norb nspin eps, kconj eps = eps -> m_hermitian (spec_level l norb nspin eps).
+Proof.
+  intros. unfold PresetsSpec.spec_level. apply h_sum. intros a _. apply h_sum. intros z _.
+  apply h_scale; [assumption|apply h_n].
+Qed.
+
+Lemma h_coulombS : forall l norb nspin U eps, kconj U = U -> kconj eps = eps ->
+  m_hermitian (spec_coulombS l norb nspin U eps).
+Proof.
+  intros. unfold PresetsSpec.spec_coulombS. apply h_add; [|apply h_level; assumption].
+  apply h_sum. intros a _. apply h_sum. intros z _. apply h_sum_if. intros z' _ _.
+  apply h_scale; [assumption|apply h_nn].
+Qed.
+
+Lemma h_sz : forall l a, m_hermitian (m_sz l a).
+Proof.
+  intros l a. eapply h_meq; [apply meq_sym, m_sz_diag|]. eapply herm_diag; [exact conj0|]. intros s.
+  unfold PresetsSpec.sz_val. rewrite conj_mul, conj_sub', conj_half.
+  rewrite !(conj_occ K k0 k1 kconj conj0 conj1). reflexivity.
+Qed.
+
+Lemma h_magnetization : forall l norb mH, kconj mH = mH -> m_hermitian (spec_magnetization l norb mH).
+Proof.
+  intros. unfold PresetsSpec.spec_magnetization. apply h_sum. intros a _. apply h_scale; [assumption|apply h_sz].
+Qed.
+
+Lemma h_x_szsz : forall l1 l2 a, m_hermitian (x_szsz l1 l2 a).
+Proof.
+  intros. unfold PresetsSpec.x_szsz. eapply herm_diag; [exact conj0|]. intros s.
+  unfold PresetsSpec.sz_val. rewrite !conj_mul, !conj_sub', conj_half.
+  rewrite !(conj_occ K k0 k1 kconj conj0 conj1). reflexivity.
+Qed.
+
+Lemma h_szsz : forall l1 l2 norb J, kconj J = J -> m_hermitian (spec_szsz l1 l2 norb J).
+Proof.
+  intros. eapply h_meq; [apply meq_sym, xspec_szsz_ok|]. unfold PresetsSpec.xspec_szsz.
+  apply h_sum. intros a _. apply h_scale; [assumption|apply h_x_szsz].
+Qed.
+
+(** adjoint of an operator string *)
+Lemma adj_cm : forall m, meq (m_adj (cm m)) (cm (adjoint_mono m)).
+Proof. intros m. eapply m_adj_mono; eassumption. Qed.
+
+Lemma h_hopping8 : forall l1 l2 t o1 o2 s1 s2, m_hermitian (spec_hopping8 l1 l2 t o1 o2 s1 s2).
+Proof.
+  intros. eapply h_meq; [apply meq_sym, xspec_hopping8_ok|]. unfold PresetsSpec.xspec_hopping8.
+  eapply herm_plus_adj; try eassumption.
+  eapply meq_trans; [|apply meq_sym; eapply m_adj_scale; eassumption].
+  apply meq_scale. unfold PresetsSpec.x_hop. apply meq_sym. eapply meq_trans; [apply adj_cm|]. apply meq_refl.
+Qed.
+Lemma h_hopping6 : forall l1 l2 p t o1 o2, m_hermitian (spec_hopping6 l1 l2 p t o1 o2).
+Proof. intros. unfold PresetsSpec.spec_hopping6. apply h_sum. intros z _. apply h_hopping8. Qed.
+Lemma h_hopping4 : forall l1 l2 n p t, m_hermitian (spec_hopping4 l1 l2 n p t).
+Proof. intros. unfold PresetsSpec.spec_hopping4. apply h_sum. intros z _. apply h_sum. intros a _. apply h_hopping8. Qed.
+
+(** two pairs of operators on four different modes commute *)
+Lemma cm_pair_swap : forall a b c d : op,
+  op_idx a < M -> op_idx b < M -> op_idx c < M -> op_idx d < M ->
+  op_idx a <> op_idx c -> op_idx a <> op_idx d -> op_idx b <> op_idx c -> op_idx b <> op_idx d ->
+  meq (cm [a; b; c; d]) (cm [c; d; a; b]).
+Proof.
+  intros a b c d Ha Hb Hc Hd Nac Nad Nbc Nbd s u Hs _.
+  change (cm [a; b; c; d] s u) with (cm ([a] ++ b :: c :: [d]) s u).
+  rewrite (coef_mono_swap Hring b c [a] [d] s u) by lia. cbn [app].
+  change (cm [a; c; b; d] s u) with (cm ([] ++ a :: c :: [b; d]) s u).
+  rewrite (coef_mono_swap Hring a c [] [b; d] s u) by lia. cbn [app].
+  change (cm [c; a; b; d] s u) with (cm ([c; a] ++ b :: d :: []) s u).
+  rewrite (coef_mono_swap Hring b d [c; a] [] s u) by lia. cbn [app].
+  change (cm [c; a; d; b] s u) with (cm ([c] ++ a :: d :: [b]) s u).
+  rewrite (coef_mono_swap Hring a d [c] [b] s u) by lia. cbn [app]. ring.
+Qed.
+
+(** exchanging the two creation and the two annihilation operators of c^+ c^+ c c *)
+Lemma cm_double_swap : forall a b c d : nat, a < M -> b < M -> c < M -> d < M -> a <> b -> c <> d ->
+  meq (cm [cdag a; cdag b; cann c; cann d]) (cm [cdag b; cdag a; cann d; cann c]).
+Proof.
+  intros a b c d Ha Hb Hc Hd Nab Ncd s u Hs _.
+  change (cm [cdag a; cdag b; cann c; cann d] s u) with (cm ([] ++ cdag a :: cdag b :: [cann c; cann d]) s u).
+  rewrite (coef_mono_swap Hring (cdag a) (cdag b) [] [cann c; cann d] s u) by (cbn; lia). cbn [app].
+  change (cm [cdag b; cdag a; cann c; cann d] s u) with (cm ([cdag b; cdag a] ++ cann c :: cann d :: []) s u).
+  rewrite (coef_mono_swap Hring (cann c) (cann d) [cdag b; cdag a] [] s u) by (cbn; lia). cbn [app]. ring.
+Qed.
+
+(** the modes of a site are pairwise different; the modes of two different sites are different *)
+Definition site_inj (l : L) (norb nspin : nat) : Prop :=
+  forall a z a' z', a < norb -> z < nspin -> a' < norb -> z' < nspin ->
+    idx l a z = idx l a' z' -> a = a' /\ z = z'.
+Definition sites_apart (l1 l2 : L) (norb nspin : nat) : Prop :=
+  forall a z a' z', a < norb -> z < nspin -> a' < norb -> z' < nspin -> idx l1 a z <> idx l2 a' z'.
+
+Lemma h_ss : forall l1 l2 norb J, kconj J = J ->
+  site_ok l1 norb 2 -> site_ok l2 norb 2 -> (l1 = l2 \/ sites_apart l1 l2 norb 2) ->
+  m_hermitian (spec_ss l1 l2 norb J).
+Proof.
+  intros l1 l2 norb J HJ S1 S2 Hl. eapply h_meq; [apply meq_sym, xspec_ss_ok|]. unfold PresetsSpec.xspec_ss.
+  apply h_sum. intros a Ha. apply in_rng in Ha. apply h_scale; [assumption|].
+  apply h_add; [apply h_x_szsz|]. apply h_scale; [apply conj_half|].
+  pose proof spin_up_lt2 as Hu. pose proof spin_down_lt2 as Hd.
+  destruct Hl as [El|Hap].
+  - subst l2. apply h_add; unfold PresetsSpec.m_hermitian.
+    + unfold PresetsSpec.x_spsm. apply meq_sym. eapply meq_trans; [apply adj_cm|]. apply meq_refl.
+    + unfold PresetsSpec.x_smsp. apply meq_sym. eapply meq_trans; [apply adj_cm|]. apply meq_refl.
+  - eapply herm_plus_adj; try eassumption.
+    unfold PresetsSpec.x_spsm, PresetsSpec.x_smsp. apply meq_sym.
+    eapply meq_trans; [apply adj_cm|]. unfold adjoint_mono. cbn [map rev app flip_type fst snd negb].
+    unfold PresetsSpec.up, PresetsSpec.down.
+    change (false, idx l2 a spin_up) with (cdag (idx l2 a spin_up)).
+    change (true, idx l2 a spin_down) with (cann (idx l2 a spin_down)).
+    change (false, idx l1 a spin_down) with (cdag (idx l1 a spin_down)).
+    change (true, idx l1 a spin_up) with (cann (idx l1 a spin_up)).
+    apply cm_pair_swap; cbn [op_idx snd cdag cann];
+      try (apply S1; assumption); try (apply S2; assumption);
+      try (intro E; symmetry in E; revert E; apply Hap; assumption).
+Qed.
+
+Lemma adj_sum : forall (X : Type) (l : list X) (f : X -> mat), meq (m_adj (m_sum l f)) (m_sum l (fun x => m_adj (f x))).
+Proof. intros. eapply m_adj_sum; eassumption. Qed.
+Lemma adj_sum_if : forall (X : Type) (l : list X) (p : X -> bool) (f : X -> mat),
+  meq (m_adj (m_sum_if l p f)) (m_sum_if l p (fun x => m_adj (f x))).
+Proof.
+  intros. unfold PresetsSpec.m_sum_if. eapply meq_trans; [apply adj_sum|]. apply meq_sum. intros x _.
+  destruct (p x); [apply meq_refl|]. intros s u _ _. unfold PresetsSpec.m_adj, PresetsSpec.m_zero. exact conj0.
+Qed.
+Lemma adj_add : forall A B, meq (m_adj (m_add A B)) (m_add (m_adj A) (m_adj B)).
+Proof. intros. eapply m_adj_add; eassumption. Qed.
+
+Lemma adj_quartic : forall a b c d, meq (m_adj (x_quartic a b c d)) (cm [cdag d; cdag c; cann b; cann a]).
+Proof. intros. unfold PresetsSpec.x_quartic. eapply meq_trans; [apply adj_cm|]. apply meq_refl. Qed.
+
+Lemma h_coulombP : forall l norb nspin U Up J eps,
+  kconj U = U -> kconj Up = Up -> kconj J = J -> kconj eps = eps ->
+  site_ok l norb nspin -> site_inj l norb nspin ->
+  m_hermitian (spec_coulombP l norb nspin U Up J eps).
+Proof.
+  intros l norb nspin U Up J eps HU HUp HJ He S I. eapply h_meq; [apply meq_sym, xspec_coulombP_ok|].
+  cbv beta zeta delta [PresetsSpec.xspec_coulombP].
+  apply h_add; [|apply h_level; assumption].
+  apply h_add; [apply h_add; [apply h_add|]|].
+  - apply h_scale; [assumption|]. apply h_sum. intros a _. apply h_sum. intros z _. apply h_sum_if. intros z' _ _. apply h_nn.
+  - apply h_scale; [assumption|]. apply h_sum. intros a _. apply h_sum_if. intros a' _ _.
+    apply h_sum. intros z _. apply h_sum_if. intros z' _ _. apply h_nn.
+  - apply h_scale; [rewrite conj_mul, conj_sub', conj_half, HUp, HJ; reflexivity|].
+    apply h_sum. intros a _. apply h_sum_if. intros a' _ _. apply h_sum. intros z _. apply h_nn.
+  - apply h_scale; [rewrite conj_opp, HJ; reflexivity|].
+    unfold PresetsSpec.m_hermitian.
+    eapply meq_trans; [|apply meq_sym, adj_sum].
+    eapply meq_trans; [|apply meq_sum; intros a _; apply meq_sym, adj_sum_if].
+    eapply meq_trans.
+    { eapply (m_sum_if_sym K k0 k1 kadd kmul ksub kopp kzero Hring M (rng norb) (fun a a' => negb (a =? a'))).
+      intros a b. rewrite Nat.eqb_sym. reflexivity. }
+    apply meq_sum. intros a Ha. apply in_rng in Ha. apply meq_sum_if. intros a' Ha' Hne. apply in_rng in Ha'.
+    apply negb_eqb_neq in Hne.
+    eapply meq_trans; [|apply meq_sym, adj_sum]. apply meq_sum. intros z Hz. apply in_rng in Hz.
+    eapply meq_trans; [|apply meq_sym, adj_sum_if]. apply meq_sum_if. intros z' Hz' Hlt. apply in_rng in Hz'.
+    apply Nat.ltb_lt in Hlt.
+    eapply meq_trans; [|apply meq_sym, adj_add].
+    assert (D : forall x y x' y', x < norb -> y < nspin -> x' < norb -> y' < nspin -> (x <> x' \/ y <> y') ->
+                idx l x y <> idx l x' y').
+    { intros x y x' y' B1 B2 B3 B4 Hd E. destruct (I x y x' y' B1 B2 B3 B4 E). lia. }
+    apply meq_add.
+    + eapply meq_trans; [|apply meq_sym, adj_quartic].
+      unfold PresetsSpec.x_quartic. apply cm_double_swap; try (apply S; assumption); apply D; try assumption; lia.
+    + eapply meq_trans; [|apply meq_sym, adj_quartic].
+      unfold PresetsSpec.x_quartic. apply cm_double_swap; try (apply S; assumption); apply D; try assumption; lia.
+Qed.
+
+(** ** the Hamiltonian a preset produces is Hermitian (symmetric in the real build) when its parameters are
+       real; hopping with any amplitude *)
+Lemma denotes_hermitian : forall m w A, denotes m w A -> m_hermitian A ->
+  forall h, prepare true (lattice_of m (fst w)) = Done h -> m_hermitian (cp h).
+Proof.
+  intros m w A (_ & h' & E & HA) H h Eh. rewrite E in Eh. inversion Eh; subst h'.
+  eapply h_meq; [apply meq_sym; exact HA|exact H].
+Qed.
+
+Theorem addLevel_hermitian : forall m l norb nspin eps h,
+  find_site l m = Some (norb, nspin) -> site_ok l norb nspin -> kconj eps = eps ->
+  prepare true (lattice_of m (fst (Lattice.addLevel L leqb K vo m l eps))) = Done h -> m_hermitian (cp h).
+Proof.
+  intros m l norb nspin eps h F S He. eapply denotes_hermitian; [apply addLevel_denotes; eassumption|].
+  apply h_level; assumption.
+Qed.
+Theorem addCoulombS_hermitian : forall m l norb nspin U eps h,
+  find_site l m = Some (norb, nspin) -> site_ok l norb nspin -> kconj U = U -> kconj eps = eps ->
+  prepare true (lattice_of m (fst (Lattice.addCoulombS L leqb K vo m l U eps))) = Done h -> m_hermitian (cp h).
+Proof.
+  intros m l norb nspin U eps h F S HU He. eapply denotes_hermitian; [apply addCoulombS_denotes; eassumption|].
+  apply h_coulombS; assumption.
+Qed.
+Theorem addCoulombP_hermitian : forall m l norb nspin U Up J eps h,
+  find_site l m = Some (norb, nspin) -> 2 <= norb -> 2 <= nspin -> site_ok l norb nspin -> site_inj l norb nspin ->
+  kconj U = U -> kconj Up = Up -> kconj J = J -> kconj eps = eps ->
+  prepare true (lattice_of m (fst (Lattice.addCoulombP L leqb K vo m l U Up J eps))) = Done h -> m_hermitian (cp h).
+Proof.
+  intros m l norb nspin U Up J eps h F Hn Hp S I HU HUp HJ He.
+  eapply denotes_hermitian; [apply addCoulombP_denotes; eassumption|]. apply h_coulombP; assumption.
+Qed.
+Theorem addMagnetization_hermitian : forall m l norb mH h,
+  find_site l m = Some (norb, 2) -> site_ok l norb 2 -> kconj mH = mH ->
+  prepare true (lattice_of m (fst (Lattice.addMagnetization L leqb K vo m l mH))) = Done h -> m_hermitian (cp h).
+Proof.
+  intros m l norb mH h F S HM. eapply denotes_hermitian; [apply addMagnetization_denotes_twice_documented; eassumption|].
+  apply h_magnetization. rewrite conj_add, HM. reflexivity.
+Qed.
+Theorem addSzSz_hermitian : forall cfg m l1 l2 norb J h,
+  find_site l1 m = Some (norb, 2) -> find_site l2 m = Some (norb, 2) ->
+  site_ok l1 norb 2 -> site_ok l2 norb 2 -> kconj J = J ->
+  prepare true (lattice_of m (fst (Lattice.addSzSz L leqb K vo cfg m l1 l2 J))) = Done h -> m_hermitian (cp h).
+Proof.
+  intros cfg m l1 l2 norb J h F1 F2 S1 S2 HJ. eapply denotes_hermitian; [apply addSzSz_denotes; eassumption|].
+  apply h_szsz; assumption.
+Qed.
+Theorem addSS_hermitian : forall cfg m l1 l2 norb J h,
+  find_site l1 m = Some (norb, 2) -> find_site l2 m = Some (norb, 2) ->
+  site_ok l1 norb 2 -> site_ok l2 norb 2 -> (l1 = l2 \/ sites_apart l1 l2 norb 2) -> kconj J = J ->
+  prepare true (lattice_of m (fst (Lattice.addSS L leqb K vo cfg m l1 l2 J))) = Done h -> m_hermitian (cp h).
+Proof.
+  intros cfg m l1 l2 norb J h F1 F2 S1 S2 Hl HJ. eapply denotes_hermitian; [apply addSS_denotes; eassumption|].
+  apply h_ss; assumption.
+Qed.
+Theorem addHopping8_hermitian : forall m l1 l2 t o1 o2 s1 s2 n1 p1 n2 p2 h,
+  find_site l1 m = Some (n1, p1) -> find_site l2 m = Some (n2, p2) ->
+  o1 < n1 -> s1 < p1 -> o2 < n2 -> s2 < p2 -> site_ok l1 n1 p1 -> site_ok l2 n2 p2 ->
+  prepare true (lattice_of m (fst (Lattice.addHopping8 L leqb K vo m l1 l2 t o1 o2 s1 s2))) = Done h -> m_hermitian (cp h).
+Proof.
+  intros m l1 l2 t o1 o2 s1 s2 n1 p1 n2 p2 h F1 F2 A1 A2 A3 A4 S1 S2.
+  eapply denotes_hermitian; [exact (addHopping8_denotes m l1 l2 t o1 o2 s1 s2 n1 p1 n2 p2 F1 F2 A1 A2 A3 A4 S1 S2)|apply h_hopping8].
+Qed.
+Theorem addHopping6_hermitian : forall cfg m l1 l2 t o1 o2 n1 n2 p h,
+  find_site l1 m = Some (n1, p) -> find_site l2 m = Some (n2, p) ->
+  o1 < n1 -> o2 < n2 -> site_ok l1 n1 p -> site_ok l2 n2 p ->
+  prepare true (lattice_of m (fst (Lattice.addHopping6 L leqb K vo cfg m l1 l2 t o1 o2))) = Done h -> m_hermitian (cp h).
+Proof.
+  intros cfg m l1 l2 t o1 o2 n1 n2 p h F1 F2 A1 A3 S1 S2.
+  eapply denotes_hermitian; [exact (addHopping6_denotes cfg m l1 l2 t o1 o2 n1 n2 p F1 F2 A1 A3 S1 S2)|apply h_hopping6].
+Qed.
+Theorem addHopping4_hermitian : forall cfg m l1 l2 t n p h,
+  find_site l1 m = Some (n, p) -> find_site l2 m = Some (n, p) -> site_ok l1 n p -> site_ok l2 n p ->
+  prepare true (lattice_of m (fst (Lattice.addHopping4 L leqb K vo cfg m l1 l2 t))) = Done h -> m_hermitian (cp h).
+Proof.
+  intros cfg m l1 l2 t n p h F1 F2 S1 S2.
+  eapply denotes_hermitian; [exact (addHopping4_denotes cfg m l1 l2 t n p F1 F2 S1 S2)|apply h_hopping4].
+Qed.
+
 End PF.
